@@ -87,7 +87,8 @@ def check(run):
         run.tie_breaks.append('model driver failed on some case')
     failing = []
     agree = 0
-    hyp = {'DocWf': 0, 'DocInv': 0, 'SpecShape': 0, 'NamesOk': 0, 'ParentsOk': 0, 'all': 0, 'documents': 0}
+    hyp = {'DocWf': 0, 'DocInv': 0, 'SpecShape': 0, 'NamesOk': 0, 'ParentsOk': 0, 'all': 0, 'documents': 0,
+           'expressions': 0, 'supported': 0, 'inside_theorem': 0}
     for it, r in zip(items, res):
         X.account(run, it, r)
         if r['model'] and len(r['model'].get('I', '')) == 5:
@@ -95,7 +96,13 @@ def check(run):
             hyp['documents'] += 1
             for k, name in enumerate(['DocWf', 'DocInv', 'SpecShape', 'NamesOk', 'ParentsOk']):
                 hyp[name] += bits[k] == '1'
-            hyp['all'] += bits[1:] == '1111'
+            hyp['all'] += bits[1:4] == '111'          # the hypotheses of C05_eval_refines_spec (ParentsOk is no longer one)
+            sup = r['model'].get('S', '')
+            nodefault = not any(b[0] is None for b in r['case'].get('binds', []))
+            hyp['expressions'] += len(sup)
+            hyp['supported'] += sup.count('1')
+            if bits[1:4] == '111' and nodefault:
+                hyp['inside_theorem'] += sup.count('1')
         if r['impl'] is None or not r['dump'].get('D'):
             continue
         d = X.compare_model(r)
